@@ -1,26 +1,56 @@
 #!/usr/bin/env python3
-"""Runs every seeded mutant against the quick check of its property (applies the patch to /repo, runs, reverts)
-and writes seeded/RESULTS.json: which obligations / stand-ins reported the violation."""
-import json, os, re, subprocess, sys, time
+"""Runs every seeded mutant against the quick check of its property and writes seeded/RESULTS.json: which
+obligations / stand-ins reported the violation.
+
+Each mutant is applied to a scratch export of /repo's HEAD (never to /repo itself); the check reads it through
+LVC_REPO and writes its evidence / replay files to a scratch LVC_OUT, so the committed evidence is not touched.
+usage: mutants_all.py [-j N] [seed-prefix ...]"""
+import json, os, re, shutil, subprocess, sys, tempfile, time
+from concurrent.futures import ThreadPoolExecutor
+
 V = os.path.dirname(os.path.dirname(os.path.abspath(__file__)))
-out = {}
-seeds = sorted(d for d in os.listdir(os.path.join(V, 'seeded')) if re.match(r'C\d\d-\d', d))
-only = sys.argv[1:]
-for sd in seeds:
-    if only and not any(sd.startswith(o) for o in only):
-        continue
+args = sys.argv[1:]
+jobs = 2
+if args[:1] == ['-j']:
+    jobs = int(args[1])
+    args = args[2:]
+seeds = sorted(d for d in os.listdir(os.path.join(V, 'seeded')) if re.match(r'C\d\d-\d+$', d))
+seeds = [s for s in seeds if not args or any(s.startswith(o) for o in args)]
+res_path = os.path.join(V, 'seeded', 'RESULTS.json')
+out = json.load(open(res_path)) if os.path.exists(res_path) and args else {}
+
+
+def run(sd):
     prop = sd.split('-')[0]
     patch = os.path.join(V, 'seeded', sd, 'patch.diff')
-    assert subprocess.run(['git', '-C', '/repo', 'diff', '--quiet']).returncode == 0, 'repo dirty'
-    subprocess.run(['git', '-C', '/repo', 'apply', patch], check=True)
-    t0 = time.time()
+    scratch = tempfile.mkdtemp(prefix='lvmut.%s.' % sd)
     try:
-        p = subprocess.run(['timeout', '1500', os.path.join(V, 'bin', 'lv'), 'check', prop], cwd=V, capture_output=True, text=True)
+        tree = os.path.join(scratch, 'tree')
+        os.makedirs(tree)
+        ar = subprocess.Popen(['git', '-C', '/repo', 'archive', 'HEAD'], stdout=subprocess.PIPE)
+        subprocess.run(['tar', '-x', '-C', tree], stdin=ar.stdout, check=True)
+        ar.wait()
+        subprocess.run(['git', 'apply', patch], cwd=tree, check=True)
+        env = dict(os.environ, LVC_REPO=tree, LVC_OUT=os.path.join(scratch, 'out'))
+        t0 = time.time()
+        p = subprocess.run(['timeout', '2400', os.path.join(V, 'bin', 'lv'), 'check', prop], cwd=V, capture_output=True, text=True, env=env)
         rc, txt = p.returncode, p.stdout
+        lines = txt.splitlines()
+        viol = [re.search(r'replay=\S*/([^/]+)\.json', l).group(1) for l in lines if l.startswith('VIOLATION')]
+        summ = [l for l in lines if re.match(r'C\d\d tier=', l)]
+        r = {'property': prop, 'exit': rc, 'detected': rc == 1, 'violations': viol[:8], 'wall_s': round(time.time() - t0, 1),
+             'confirmed_replay': sum(1 for l in lines if l.startswith('VIOLATION') and 'no-failing-input-found' not in l),
+             'by_proof': sum(1 for v in viol if not v.startswith('bounded.')), 'by_bounded': sum(1 for v in viol if v.startswith('bounded.')),
+             'summary': summ[-1] if summ else None}
     finally:
-        subprocess.run(['git', '-C', '/repo', 'checkout', '--', '.'])
-    viol = [re.search(r'replay=\S*/([^/]+)\.json', l).group(1) for l in txt.splitlines() if l.startswith('VIOLATION')]
-    out[sd] = {'property': prop, 'exit': rc, 'detected': rc == 1, 'violations': viol[:8], 'wall_s': round(time.time() - t0, 1),
-               'confirmed_replay': sum(1 for l in txt.splitlines() if l.startswith('VIOLATION') and 'no-failing-input-found' not in l)}
+        shutil.rmtree(scratch, ignore_errors=True)
     print(sd, rc, viol[:2], flush=True)
-    json.dump(out, open(os.path.join(V, 'seeded', 'RESULTS.json'), 'w'), indent=1)
+    return sd, r
+
+
+with ThreadPoolExecutor(jobs) as ex:
+    for sd, r in ex.map(run, seeds):
+        out[sd] = r
+        json.dump(dict(sorted(out.items())), open(res_path, 'w'), indent=1)
+missed = [k for k, v in sorted(out.items()) if not v['detected']]
+print('mutants: %d, detected: %d, missed: %s' % (len(out), len(out) - len(missed), missed))
